@@ -23,7 +23,14 @@ def _run_command(command, verbose=True, timeoutsec=60):
     pkwargs = {}
     if sys.version_info.major > 2:
         pkwargs.update({"timeout": timeoutsec})
-    (stdoutdata, stderrdata) = popen.communicate(pkwargs)
+    try:
+        (stdoutdata, stderrdata) = popen.communicate(**pkwargs)
+    except Exception:
+        # the timeout expired: the child is killed and waited for,
+        # then the exception is re-raised
+        popen.kill()
+        popen.communicate()
+        raise
     returncode = popen.returncode
     if returncode:
         # todo: think about a warning here
